@@ -782,7 +782,7 @@ func c03IsConstBool(v ssa.Value, want bool) bool {
 // guardOn: among the guards of block b, the truth value of a condition satisfying pred.
 func c03GuardOn(b *ssa.BasicBlock, pred func(cond ssa.Value) bool) (val bool, found bool) {
 	for _, g := range fw.Guards(b) {
-		g = g.Normalize()
+		g = c03Norm(g)
 		if pred(g.Cond) {
 			return g.True, true
 		}
@@ -814,4 +814,38 @@ func (c *c03x) onEveryPathThrough(x ssa.Instruction, stores []*ssa.Store) bool {
 		}
 	}
 	return true
+}
+
+// c03Norm strips negations and comparisons with boolean constants from a branch condition
+// (`!x`, `x == false`, `x != true` ...), so that a guard is always stated on the underlying value.
+func c03Norm(g fw.Guard) fw.Guard {
+	for i := 0; i < 16; i++ {
+		switch x := g.Cond.(type) {
+		case *ssa.UnOp:
+			if x.Op != token.NOT {
+				return g
+			}
+			g = fw.Guard{Cond: x.X, True: !g.True, If: g.If}
+		case *ssa.BinOp:
+			if x.Op != token.EQL && x.Op != token.NEQ {
+				return g
+			}
+			var other ssa.Value
+			var k bool
+			switch {
+			case c03IsConstBool(x.Y, true) || c03IsConstBool(x.Y, false):
+				other, k = x.X, c03IsConstBool(x.Y, true)
+			case c03IsConstBool(x.X, true) || c03IsConstBool(x.X, false):
+				other, k = x.Y, c03IsConstBool(x.X, true)
+			default:
+				return g
+			}
+			// (other == k) is true  <=>  other is k
+			holds := g.True == (x.Op == token.EQL)
+			g = fw.Guard{Cond: other, True: holds == k, If: g.If}
+		default:
+			return g
+		}
+	}
+	return g
 }
